@@ -148,13 +148,22 @@ def run(ctx, anchors=None):
     ctx.inst(tw == ["internal_pubkey_u256", "root->m_hash"] and hsrc == ["HasherTapTweak"], "R06.1", "tweak-stream", tapmain.loc(),
              "tweak = TapTweak(internal key || merkle root)", "tap's tweak hash streams %s into %s; the verifier hashes (internal key, merkle root) with TapTweak" % (tw, hsrc))
     verifier = fb.fn("XOnlyPubKey::ComputeTapTweakHash")
-    vops = []
-    for n in verifier.nodes():
-        if n["k"] == "opcall" and n.get("op") == "<<":
-            base, o = streams.flatten_chain(n)
-            if len(o) == 2:
-                vops = [astq.estr(x[1]) for x in o]
-    ctx.inst(vops == ["m_keydata", "*merkle_root"], "R06.1", "verifier-tweak-stream", verifier.loc(), "verifier: TapTweak(key || root)")
+    if len(verifier.params) != 1 or "m_keydata" not in fb.record_fields("XOnlyPubKey"):
+        raise AnalysisBroken("R06.1: anchor name(s) ['XOnlyPubKey::m_keydata' / ComputeTapTweakHash(merkle_root)] not found - renamed or restructured")
+    MR = ("a", "merkle_root")
+    try:
+        vouts = [o for o in X.explore(verifier, this=this, params={verifier.params[0]["n"]: MR}) if o.status == "ret"]
+    except symx.Unsupported as e:
+        raise AnalysisBroken("R06.1: ComputeTapTweakHash: %s" % e)
+    with_root = []
+    for o in vouts:
+        r = o.ret
+        if isinstance(r, tuple) and r[:2] == ("ap", "m:GetSHA256") and len(r) == 3:
+            base, ops = symx.unmut(r[2])
+            if len(ops) == 2:
+                with_root.append((base, [op[1] for op in ops]))
+    ctx.inst(bool(with_root) and all(b_ == ("a", "HASHER_TAPTWEAK") and o_ == [("f", this, "m_keydata"), ("f", MR, "*")] for (b_, o_) in with_root), "R06.1", "verifier-tweak-stream", verifier.loc(),
+             "verifier: TapTweak(key || root)", "the verifier computes the tweak hash as %s; BIP341 defines TapTweak(internal key || merkle root)" % [(symx.show(b_), [symx.show(x) for x in o_]) for (b_, o_) in with_root][:2])
     # ---- R06.2 control block
     ctl_init = [d for n in tapmain.nodes() if n["k"] == "decl" for d in n["decls"] if d["n"] == "ctl"]
     ok_init = bool(ctl_init) and ctl_init[0].get("init") is not None and astq.estr(ctl_init[0]["init"]) == "internal_pubkey"
